@@ -33,6 +33,8 @@ mutual
 inductive Stmt where
   /-- `name = e` (the variable is the atom `v`) -/
   | assign (v : Var) (name : Str) (e : Node)
+  /-- `name op= e` -/
+  | aug (v : Var) (name : Str) (op : BOp) (e : Node)
   | ret (e : Node)
   /-- `if c: … elif c: … [else: …]` -/
   | ifs (arms : Arms) (hasElse : Bool) (els : Block)
@@ -66,6 +68,7 @@ mutual
 inductive AStmt where
   | decl (v : Var) (name : Str) (e : Node)
   | set (v : Var) (name : Str) (e : Node)
+  | aug (v : Var) (name : Str) (op : BOp) (e : Node)
   | ret (e : Node)
   | ifs (arms : AArms) (hasElse : Bool) (els : ABlock)
   | while_ (c : Node) (body : ABlock)
@@ -93,6 +96,10 @@ def annotD (d : List (Scope × Var)) (k : Nat) (s : Scope) : Block → ABlock ×
   | .cons (.ret e) rest =>
     let (r, d', k') := annotD d k s rest
     (.cons (.ret e) r, d', k')
+  | .cons (.aug v name op e) rest =>
+    -- an augmented assignment never declares (AugAssign is no declaration for VarsCollector)
+    let (r, d', k') := annotD d k s rest
+    (.cons (.aug v name op e) r, d', k')
   | .cons (.ifs arms he els) rest =>
     let (a, d1, k1) := annotDArms d k s arms
     let (e, d2, k2) := annotD d1 (k1 + 1) (s ++ [k1]) els
@@ -140,6 +147,7 @@ def annotV (vs : VStack) : Block → ABlock
     if visible vs v then .cons (.set v name e) (annotV vs rest)
     else .cons (.decl v name e) (annotV (declTop vs v) rest)
   | .cons (.ret e) rest => .cons (.ret e) (annotV vs rest)
+  | .cons (.aug v name op e) rest => .cons (.aug v name op e) (annotV vs rest)
   | .cons (.ifs arms he els) rest => .cons (.ifs (annotVArms vs arms) he (annotV ([] :: vs) els)) (annotV vs rest)
   | .cons (.while_ c body) rest => .cons (.while_ c (annotV ([] :: vs) body)) (annotV vs rest)
   | .cons (.forRange v name b0 s0 t0 body) rest => .cons (.forRange v name b0 s0 t0 (annotV ([] :: [v] :: vs) body)) (annotV vs rest)
@@ -177,6 +185,8 @@ def emitLines (typeOf : Node → Str) : ABlock → List Str
     line stmtDeclare [(sVarType, word (typeOf e)), (sReceiver, word name), (sValue, emitRaw e)] :: emitLines typeOf rest
   | .cons (.set _ name e) rest => line stmtAssign [(sReceiver, word name), (sValue, emitRaw e)] :: emitLines typeOf rest
   | .cons (.ret e) rest => line stmtReturn [(sReturnValue, emitRaw e)] :: emitLines typeOf rest
+  | .cons (.aug _ name op e) rest =>
+    line stmtAug [(sReceiver, word name), (sOperator, word (op.tok ++ ['='])), (sValue, emitRaw e)] :: emitLines typeOf rest
   | .cons (.ifs arms he els) rest =>
     emitArms typeOf true arms ++ (if he then line stmtElseHead [] :: emitLines typeOf els else []) ++ [stmtIfTail] ++ emitLines typeOf rest
   | .cons (.while_ c body) rest =>
@@ -189,6 +199,27 @@ def emitArms (typeOf : Node → Str) (first : Bool) : AArms → List Str
   | .more c b rest =>
     line (if first then stmtIfHead else stmtElifHead) [(sCondition, emitRaw c)] :: (emitLines typeOf b ++ emitArms typeOf false rest)
 end
+
+/-! ## the loop test of `for (…; v < stop; …)` -/
+
+/-- the sections of the for-range head between its `;` (taken from the translated flow/for/range.j2) -/
+def splitSemi : List Piece → List (List Piece)
+  | [] => [[]]
+  | .tok [';'] :: ps => [] :: splitSemi ps
+  | p :: ps => match splitSemi ps with
+    | [] => [[p]]
+    | sec :: rest => (p :: sec) :: rest
+
+/-- the pieces of the loop test: the second section of the head, leading blanks dropped -/
+def condPieces : List Piece := ((splitSemi stmtForRangeHead).getD 1 []).dropWhile (· == .sp)
+
+/-- the loop test as the template pastes it — `{{ symbol }} < {{ size }}`: NO parentheses are added around the stop text -/
+def pastedCond (v : Var) (name : Str) (s0 : Node) : List RTok :=
+  instantiate [(sSymbol, [.t (.atom v name)]), (sSize, emitRaw s0)] condPieces
+
+/-- the same comparison as the operator node Python's grammar would build for `v < stop` (`proc_binary_operation_expression`
+    WOULD guard its right operand; `C01.for_test_reparses`: the two texts coincide iff no guard is due) -/
+def condNode (v : Var) (name : Str) (s0 : Node) : Node := .chain cmpLevel .int (.atom v name) (.cons .lt false .int s0 .nil)
 
 /-! ## semantics -/
 
@@ -254,6 +285,13 @@ def pyStmt (lits : Lits) : Nat → Store → Stmt → Except Err (Outcome Store)
     match pyExpr' lits σ e with
     | .ok v => .ok (.returned v.repr)
     | .error er => .error er
+  | _ + 1, σ, .aug v _ op e =>
+    -- `v op= e` on ints: `v = v op e`; an unbound `v` raises (outside the subset)
+    match σ.get v, pyExpr' lits σ e with
+    | some x, .ok (.int y) => match pyBin op (.int x) (.int y) with
+      | .ok (.int z) => .ok (.normal (σ.put v z))
+      | _ => .error .outOfSubset
+    | _, _ => .error .outOfSubset
   | fuel + 1, σ, .ifs arms _ els => pyArms lits fuel σ arms els
   | fuel + 1, σ, .while_ c body =>
     match pyExpr' lits σ c with
@@ -268,7 +306,7 @@ def pyStmt (lits : Lits) : Nat → Store → Stmt → Except Err (Outcome Store)
   | fuel + 1, σ, .forRange v _ b0 s0 t0 body =>
     -- `range(begin, stop, step)` is evaluated ONCE, before the first iteration; a positive step (the emitted `i < stop` test)
     match pyExpr' lits σ b0, pyExpr' lits σ s0, pyExpr' lits σ t0 with
-    | .ok (.int b), .ok (.int s), .ok (.int t) => if 1 ≤ t then pyFor lits fuel σ v b s t body else .error .outOfSubset
+    | .ok (.int b), .ok (.int s), .ok (.int t) => if 1 ≤ t ∧ inI32 b = true then pyFor lits fuel σ v b s t body else .error .outOfSubset
     | _, _, _ => .error .outOfSubset
 /-- the iterations of `for v in range(cur, stop, step)`: `v` is (re)bound to the next value of the range whatever the body did to it -/
 def pyFor (lits : Lits) : Nat → Store → Var → Int → Int → Int → Block → Except Err (Outcome Store)
@@ -338,6 +376,14 @@ def popOut : Except Err (Outcome Frames) → Except Err (Outcome Frames)
   | .ok (.normal fs) => .ok (.normal fs.tail)
   | r => r
 
+/-- C++ value of the pasted loop test: the tokens the template produced, lexed and parsed by the C++ grammar as they stand -/
+def cCond (lits : Lits) (fs : Frames) (v : Var) (name : Str) (s0 : Node) : Except Err Int :=
+  if (v :: readsOf lits s0).all fun x => (fs.get x).isSome then
+    match Prec.parse cppOps ((cppLex (pastedCond v name s0)).map CTok.toPrec) with
+    | some t => denoteCpp (cEnv lits fs) t
+    | none => .error .ub
+  else .error .ub
+
 mutual
 def cExec (lits : Lits) : Nat → Frames → ABlock → Except Err (Outcome Frames)
   | 0, _, _ => .error .ub
@@ -363,6 +409,15 @@ def cStmt (lits : Lits) : Nat → Frames → AStmt → Except Err (Outcome Frame
     match cExpr lits fs e with
     | .ok i => .ok (.returned i)
     | .error er => .error er
+  | _ + 1, fs, .aug v _ op e =>
+    -- `v op= e;`: the compound assignment operator binds loosest, `e` is the whole right-hand side
+    match fs.get v, cExpr lits fs e with
+    | some x, .ok y => match cppBin op.code x y with
+      | .ok z => match fs.set v z with
+        | some fs' => .ok (.normal fs')
+        | none => .error .ub
+      | .error _ => .error .ub
+    | _, _ => .error .ub
   | fuel + 1, fs, .ifs arms _ els => cArms lits fuel fs arms els
   | fuel + 1, fs, .while_ c body =>
     match cExpr lits fs c with
@@ -375,34 +430,33 @@ def cStmt (lits : Lits) : Nat → Frames → AStmt → Except Err (Outcome Frame
         | .error er => .error er
       else .ok (.normal fs)
     | .error er => .error er
-  | fuel + 1, fs, .forRange v _ b0 s0 t0 body =>
+  | fuel + 1, fs, .forRange v name b0 s0 t0 body =>
     -- `for (auto v = begin; …) { … }`: `v` lives in the scope of the for statement, dropped after the loop
     match cExpr lits fs b0 with
-    | .ok b => popOut (cFor lits fuel ([(v, b)] :: fs) v s0 t0 body)
+    | .ok b => popOut (cFor lits fuel ([(v, b)] :: fs) v name s0 t0 body)
     | .error er => .error er
-/-- `for (…; v < stop; v += step) { body }` from the loop test on: `stop` and `step` are evaluated on EVERY iteration, `v` is
-    whatever the body left in it. (`stop` is read as an expression of its own: a stop that would need parentheses after
-    `v < ` is the known finding flat:range-arg, excluded by `tightArg`.) -/
-def cFor (lits : Lits) : Nat → Frames → Var → Node → Node → ABlock → Except Err (Outcome Frames)
-  | 0, _, _, _, _, _ => .error .ub
-  | fuel + 1, fs, v, s0, t0, body =>
-    match fs.get v, cExpr lits fs s0 with
-    | some cur, .ok s =>
-      if cur < s then
+/-- `for (…; v < stop; v += step) { body }` from the loop test on: the pasted test `v < stop` (as C++ parses that text) and `step`
+    are evaluated on EVERY iteration, `v` is whatever the body left in it -/
+def cFor (lits : Lits) : Nat → Frames → Var → Str → Node → Node → ABlock → Except Err (Outcome Frames)
+  | 0, _, _, _, _, _, _ => .error .ub
+  | fuel + 1, fs, v, name, s0, t0, body =>
+    match cCond lits fs v name s0 with
+    | .ok c =>
+      if c ≠ 0 then
         match popOut (cExec lits fuel ([] :: fs) body) with
         | .ok (.normal fs') =>
           match fs'.get v, cExpr lits fs' t0 with
           | some cur', .ok t =>
             if inI32 (cur' + t) then
               match fs'.set v (cur' + t) with
-              | some fs'' => cFor lits fuel fs'' v s0 t0 body
+              | some fs'' => cFor lits fuel fs'' v name s0 t0 body
               | none => .error .ub
             else .error .ub
           | _, _ => .error .ub
         | .ok (.returned r) => .ok (.returned r)
         | .error er => .error er
       else .ok (.normal fs)
-    | _, _ => .error .ub
+    | .error er => .error er
 def cArms (lits : Lits) : Nat → Frames → AArms → ABlock → Except Err (Outcome Frames)
   | 0, _, _, _ => .error .ub
   | fuel + 1, fs, .one c b, els =>
@@ -425,6 +479,7 @@ mutual
 def writes : Block → List Var
   | .nil => []
   | .cons (.assign v _ _) rest => v :: writes rest
+  | .cons (.aug v _ _ _) rest => v :: writes rest
   | .cons (.ret _) rest => writes rest
   | .cons (.ifs arms _ els) rest => writesArms arms ++ writes els ++ writes rest
   | .cons (.while_ _ body) rest => writes body ++ writes rest
@@ -434,13 +489,9 @@ def writesArms : Arms → List Var
   | .more _ b rest => writes b ++ writesArms rest
 end
 
-/-- an argument that may follow `v < ` unparenthesised: C++ reads `v < stop` as the comparison with the whole of it -/
-def tightArg : Node → Bool
-  | .atom _ _ => true
-  | .group _ => true
-  | .factor _ _ => true
-  | .chain lv _ _ _ => decide (cmpLevel < lv)
-  | _ => false
+/-- the operators of `v op= e` on ints -/
+def augOps : List BOp := [.add, .sub, .mul, .mod, .band, .bor, .bxor, .shl, .shr]
+def augOp (op : BOp) : Bool := augOps.contains op
 
 /-- what the body must leave alone: the loop variable and everything `stop` / `step` read (they are re-evaluated by the C++ loop) -/
 def loopFixed (lits : Lits) (v : Var) (s0 t0 : Node) : List Var := v :: readsOf lits s0 ++ readsOf lits t0
@@ -451,12 +502,15 @@ def scopeOK (lits : Lits) : VStack → Block → Bool
   | _, .nil => true
   | vs, .cons (.assign v _ e) rest => exprOK lits vs e && scopeOK lits (if visible vs v then vs else declTop vs v) rest
   | vs, .cons (.ret e) rest => exprOK lits vs e && scopeOK lits vs rest
+  | vs, .cons (.aug v _ op e) rest => exprOK lits vs e && visible vs v && augOp op && scopeOK lits vs rest
   | vs, .cons (.ifs arms _ els) rest => armsOK lits vs arms && scopeOK lits ([] :: vs) els && scopeOK lits vs rest
   | vs, .cons (.while_ c body) rest => exprOK lits vs c && scopeOK lits ([] :: vs) body && scopeOK lits vs rest
-  | vs, .cons (.forRange v _ b0 s0 t0 body) rest =>
+  | vs, .cons (.forRange v name b0 s0 t0 body) rest =>
     -- the loop variable is a fresh name (not visible: else the `auto v` of the for shadows the outer one and Python's rebinding of
-    -- it is lost), the body writes neither it nor anything stop/step read, stop may follow `v < `
-    exprOK lits vs b0 && exprOK lits vs s0 && exprOK lits vs t0 && !visible vs v && tightArg s0
+    -- it is lost; not a literal), the body writes neither it nor anything stop/step read, the comparison `v < stop` is an operator node
+    -- of the core in which stop needs no parentheses (else the pasted text regroups: known finding flat:range-arg)
+    exprOK lits vs b0 && exprOK lits vs s0 && exprOK lits vs t0 && !visible vs v
+      && ((lits v).isNone && !isRegrouped s0 BOp.lt.tok && exprOK lits ([v] :: vs) (condNode v name s0))
       && (loopFixed lits v s0 t0).all (fun x => !(writes body).contains x)
       && scopeOK lits ([] :: [v] :: vs) body && scopeOK lits vs rest
 def armsOK (lits : Lits) : VStack → Arms → Bool
